@@ -72,4 +72,32 @@ mod verif_oracle_guards {
             }
         }
     }
+
+    // contract of Prio2::choose_eval_at (unit prio2_eval): the point returned is not a 2N-th root of unity.
+    // PRNG seeds are searched for streams whose FIRST element is a 2N-th root of unity (probability 2N/p per
+    // seed), so the rejection branch is actually exercised on the real code.
+    #[test]
+    fn oracle_prio2_eval_at() {
+        use crate::field::{FieldElementWithInteger, FieldPrio2};
+        use crate::prng::Prng;
+        for input_len in [(1usize << 19) - 1, (1 << 18) - 1, 1 << 17] {
+            let vdaf = Prio2::new(input_len).unwrap();
+            let dom = 2 * npo2(input_len as u128 + 1) as u32;
+            let mut tried = 0;
+            for s in 0u64..60_000 {
+                let mut seed = [0u8; 32];
+                seed[..8].copy_from_slice(&s.to_le_bytes());
+                let first: FieldPrio2 = Prng::from_prio2_seed(&seed).get();
+                if first.pow(dom) != FieldPrio2::one() { continue; }
+                tried += 1;
+                let mut prng = Prng::from_prio2_seed(&seed);
+                let r = vdaf.choose_eval_at(&mut prng);
+                if r.pow(dom) == FieldPrio2::one() {
+                    println!("COUNTEREXAMPLE Prio2::choose_eval_at input_len={} prng_seed_le64={} returned {} which is a {}-th root of unity (an interpolation node)", input_len, s, r, dom);
+                    return;
+                }
+                if tried >= 24 { break; }
+            }
+        }
+    }
 }
